@@ -1,7 +1,7 @@
 (* C20 - the send side: rfbWriteExact gives up after at most rfbMaxClientWait (+ one slice) of
    waiting without progress, for every schedule of would-block results *)
 From Coq Require Import ZArith List Bool Lia ZifyBool.
-From LV Require Import Gen.Consts_C20 Httpd.HttpdDefs.
+From LV Require Import Gen.Consts_C20 Httpd.HttpdDefs Httpd.HttpdSafe.
 Import ListNotations.
 Local Open Scope Z_scope.
 
@@ -88,3 +88,43 @@ Example send_nonvacuous :
   wx_loop [WTimeout; WTimeout; WReady; WWrote 70000] C20_MAX_CLIENT_WAIT C20_WX_SLICE_MS 70000 0 0 = Some (WOk, 10000) /\
   wx_loop [] 12000 C20_WX_SLICE_MS 70000 0 0 = Some (WGiveUp, 15000).
 Proof. vm_compute. auto. Qed.
+
+(* ------------------------------------------------------------------ several writes per request
+   httpProcessInput sends a response with many rfbWriteExact calls and looks at the result of only some
+   of them (httpd.c: the three header writes and, in the .vnc substitution loop, the text before a
+   variable and the variable's value are unchecked; the literal "$" and the rest of the chunk are
+   checked).  For a client that has stopped reading every call waits until it gives up. *)
+Definition literal_dollar (txt : str) (used : nat) : bool := list_eqb txt s_dollar && (Nat.leb used 2).
+
+(* which of the writes of one chunk of a .vnc file have their result checked (true) *)
+Fixpoint subst_checks (fuel : nat) (cfg : config) (params : str) (rest : str) : list bool :=
+  match fuel with
+  | O => []
+  | S k =>
+      match index_of c_dollar (cstr rest) with
+      | None => [true]
+      | Some i =>
+          let r := skipn i rest in
+          match subst_at cfg params r with
+          | None => []
+          | Some (txt, used) => false :: literal_dollar txt used :: subst_checks k cfg params (skipn used r)
+          end
+      end
+  end.
+
+(* number of blocked rfbWriteExact calls before httpd stops writing, the peer being dead from the first
+   of them on.  [stop_at_first] = with notes/fix_C20_3.diff (nothing more is written after a failure) *)
+Fixpoint blocked_writes (stop_at_first : bool) (checks : list bool) : nat :=
+  match checks with
+  | [] => O
+  | c :: r => if stop_at_first || c then 1%nat else S (blocked_writes stop_at_first r)
+  end.
+
+(* with the fix: one give-up per request, whatever the file looks like *)
+Theorem vnc_stall_fixed : forall checks, (blocked_writes true checks <= 1)%nat.
+Proof. destruct checks; simpl; lia. Qed.
+
+(* the tree: text, "$HEIGHT", text, "$WIDTH", rest - a dead client is waited for four times *)
+Lemma vnc_stall_w :
+  blocked_writes false (subst_checks 100 (cfg_w false) [] [120; 36; 72; 69; 73; 71; 72; 84; 120; 36; 87; 73; 68; 84; 72; 120]) = 5%nat.
+Proof. vm_compute. reflexivity. Qed.
